@@ -113,6 +113,8 @@ def _subset(pattern, obj):
     """pattern is matched as a sub-structure of obj (dict keys subset, scalars equal, '*' wildcard)."""
     if pattern == '*':
         return True
+    if isinstance(pattern, dict) and '__any__' in pattern:
+        return any(_subset(alt, obj) for alt in pattern['__any__'])     # a finding that manifests at several call sites
     if isinstance(pattern, dict):
         return isinstance(obj, dict) and all(k in obj and _subset(v, obj[k]) for k, v in pattern.items())
     if isinstance(pattern, list):
